@@ -7,7 +7,7 @@
 //! shape is read from memory at verification time (both were measured to make CBMC explode).
 //!
 //! Token syntax: `N` null, `I` Int64, `U` Uint64, `F` finite Float64, `B` Boolean,
-//! `S0..S3` String of 0..3 ASCII bytes, `E0..E2` Enum, `[a, b, ..]` list (at most 3 elements).
+//! `S0..S4` String of 0..4 ASCII bytes, `E0..E2` Enum, `[a, b, ..]` list (at most 3 elements).
 
 use std::sync::Arc;
 
@@ -36,6 +36,7 @@ macro_rules! shape {
     (S1) => { $crate::shapes::S::Str(1) };
     (S2) => { $crate::shapes::S::Str(2) };
     (S3) => { $crate::shapes::S::Str(3) };
+    (S4) => { $crate::shapes::S::Str(4) };
     (E0) => { $crate::shapes::S::En(0) };
     (E1) => { $crate::shapes::S::En(1) };
     (E2) => { $crate::shapes::S::En(2) };
@@ -53,6 +54,7 @@ macro_rules! mkv {
     (S1) => { trustfall_core::ir::FieldValue::String($crate::shapes::any_ascii_arc_str::<1>()) };
     (S2) => { trustfall_core::ir::FieldValue::String($crate::shapes::any_ascii_arc_str::<2>()) };
     (S3) => { trustfall_core::ir::FieldValue::String($crate::shapes::any_ascii_arc_str::<3>()) };
+    (S4) => { trustfall_core::ir::FieldValue::String($crate::shapes::any_ascii_arc_str::<4>()) };
     (E0) => { trustfall_core::ir::FieldValue::Enum($crate::shapes::any_ascii_arc_str::<0>()) };
     (E1) => { trustfall_core::ir::FieldValue::Enum($crate::shapes::any_ascii_arc_str::<1>()) };
     (E2) => { trustfall_core::ir::FieldValue::Enum($crate::shapes::any_ascii_arc_str::<2>()) };
